@@ -19,15 +19,18 @@ struct user_plain {
 };
 static const uint64_t FN_LINE = 424242;  // line carried by an expectation_failed thrown by fn itself
 
+// what() texts of the exceptions fn throws: they are data, whatever characters they contain
+static const char* WHATS[] = {"x", "cache is 100% full", "%s%s%s%s%s%s%s%s", "%2147483648d", "%", "%n%n", "a\nb \"q\" \\ %%"};
+static const char* g_what = "x";
 static void throw_beh(const string& b) {
   if (b == "returns") return;
   if (b == "throws_int") throw 7;
   if (b == "exception") throw std::exception();
-  if (b == "logic_error") throw logic_error("x");
-  if (b == "invalid_argument") throw invalid_argument("x");
-  if (b == "out_of_range") throw out_of_range("x");
-  if (b == "runtime_error") throw runtime_error("x");
-  if (b == "range_error") throw range_error("x");
+  if (b == "logic_error") throw logic_error(g_what);
+  if (b == "invalid_argument") throw invalid_argument(g_what);
+  if (b == "out_of_range") throw out_of_range(g_what);
+  if (b == "runtime_error") throw runtime_error(g_what);
+  if (b == "range_error") throw range_error(g_what);
   if (b == "bad_alloc") throw bad_alloc();
   if (b == "expectation_failed") throw expectation_failed("from fn", "fn.cc", FN_LINE);
   if (b == "user_rt") throw user_rt();
@@ -90,9 +93,12 @@ static void record(const string& e, vt::J& j, uint64_t site_line, function<void(
 
 template <typename E>
 static void raises_row(const char* ename) {
+  for (const char* wt : WHATS)
   for (const char* b : BEH) {
+    g_what = wt;
+    if (wt != WHATS[0] && string(b).find("_error") == string::npos && string(b) != "invalid_argument" && string(b) != "out_of_range") continue;
     vt::J j;
-    j.str("e", "raises").str("E", ename).str("beh", b);
+    j.str("e", "raises").str("E", ename).str("beh", b).str("what", wt);
     uint64_t site = 0;
     string bs = b;
     record(string("raises") + ename, j, (site = __LINE__ + 1), [&]() {
